@@ -8,8 +8,10 @@ from .core.ctx import Ctx
 from .core.loader import AnalysisError
 from .core.report import RuleOut, load_known, write_json, Timer, VERIF
 
-PROPS = ["C01", "C02", "C03", "C04", "C05", "C06", "C08", "C09", "C10", "C11", "C12", "C13", "C14",
-         "C15", "C16", "C17", "C18"]
+PROPS_ALL = ["C01", "C02", "C03", "C04", "C05", "C06", "C08", "C09", "C10", "C11", "C12", "C13", "C14",
+             "C15", "C16", "C17", "C18"]
+import os as _os
+PROPS = [p for p in PROPS_ALL if _os.path.exists(_os.path.join(_os.path.dirname(__file__), "rules", p + ".py"))]
 
 
 class RunResult:
